@@ -113,18 +113,25 @@ def main():
     if len(beh) < 100:
         raise ToolError("vacuity: only %d behaviours emitted" % len(beh))
     cases = []
-    for b in beh:
+    for k, b in enumerate(beh):
         for inmem in (1, 0):
             c = dict(b)
             c["inmem"] = inmem
+            c["short"] = 0
             cases.append(c)
+        # the same schedule with a destination that accepts ONE byte per write call (a legal `Write`): a hand-over
+        # of several staged bytes must still deliver all of them
+        c = dict(b)
+        c["inmem"] = k % 2
+        c["short"] = 1
+        cases.append(c)
     obs = run_harness("tfb", cases, run.wd, hang_timeout=30)
     for o in obs:
-        key = json.dumps([o["pp"], o["cp"], [h["op"] for h in o["hist"]], o["inmem"]])
+        key = json.dumps([o["pp"], o["cp"], [h["op"] for h in o["hist"]], o["inmem"], o.get("short", 0)])
         nontrivial = len(o["pp"]) >= 1 and any(h["op"] in ("switch", "park") for h in o["hist"])
         run.count_case(key, nontrivial)
     run.cov["rule"] = ("every complete interleaving of a producer programme (<=MaxOps writes/flushes then drop) with a legal "
-                       "consumer programme, emitted by TLC and replayed on the real TempFileBuffer in both staging modes; "
+                       "consumer programme, emitted by TLC and replayed on the real TempFileBuffer in both staging modes, and once more against a destination taking one byte per write call; "
                        "non-trivial = at least one write and a switch or a parked blocking call; distinct by (programmes, schedule, staging)")
     run.sample({"schedule": obs[len(obs) // 2]["hist"], "pp": obs[len(obs) // 2]["pp"], "cp": obs[len(obs) // 2]["cp"],
                 "events": obs[len(obs) // 2]["obs"].get("events", [])[:4]})
